@@ -269,6 +269,7 @@ def main(tier, replay):
         ck.cov["exhaustive"] = (tier == "thorough")
     for i, s in enumerate(scns):
         s["id"] = i + 1
+        s.setdefault("pauses", [])
     exp = expected_from_spec(scns, ck)
     det = [s for s in scns if exp[s["id"]]["det"]]
     ck.count("scenarios", len(scns))
